@@ -73,6 +73,7 @@ func main() {
 		infra("missing -out")
 	}
 	os.MkdirAll(*outFlag, 0755)
+	needGo121 = !moduleGoVersionAtLeast121(*repoFlag)
 	pkgDirs := defaultPkgs
 	if *pkgsFlag != "" {
 		pkgDirs = strings.Split(*pkgsFlag, ",")
@@ -111,6 +112,27 @@ func main() {
 		}
 		pp := p
 		byDir[p.Dir] = &pp
+	}
+
+	if *pkgsFlag == "" {
+		// every package of the repository itself (also ones that did not exist when this was written:
+		// code that takes part in the concurrency must not keep native primitives), except the
+		// verification packages injected by the overlay
+		seen := map[string]bool{}
+		for _, d := range pkgDirs {
+			seen[filepath.Clean(filepath.Join(*repoFlag, d))] = true
+		}
+		root := filepath.Clean(*repoFlag)
+		for dir, lp := range byDir {
+			if lp.Standard || seen[dir] || !(dir == root || strings.HasPrefix(dir, root+string(filepath.Separator))) {
+				continue
+			}
+			rel, _ := filepath.Rel(root, dir)
+			if strings.HasPrefix(rel, filepath.Join("internal", "verif")) || strings.HasPrefix(rel, "vendor") {
+				continue
+			}
+			pkgDirs = append(pkgDirs, rel)
+		}
 	}
 
 	fset := token.NewFileSet()
@@ -157,7 +179,9 @@ func main() {
 			r := &rw{fset: fset, info: info, file: f, stmt: stmtFiles[paths[i]], base: filepath.Base(paths[i])}
 			r.rewriteFile()
 			var buf bytes.Buffer
-			buf.WriteString("//go:build " + r.constraint() + "\n\n")
+			if c := r.constraint(); c != "" {
+				buf.WriteString("//go:build " + c + "\n\n")
+			}
 			if err := printer.Fprint(&buf, fset, f); err != nil {
 				infra("cannot print %s: %v", paths[i], err)
 			}
@@ -185,7 +209,44 @@ type rw struct {
 	tmp  int
 }
 
+// needGo121: the module's language version is below 1.21 (the shims are generic: rewritten files
+// then get a go1.21 build constraint, which also raises their language version). A module already
+// at 1.21 or later keeps its own version: a constraint would lower it.
+var needGo121 = true
+
+func moduleGoVersionAtLeast121(repo string) bool {
+	b, err := os.ReadFile(filepath.Join(repo, "go.mod"))
+	if err != nil {
+		return false
+	}
+	for _, l := range strings.Split(string(b), "\n") {
+		f := strings.Fields(l)
+		if len(f) == 2 && f[0] == "go" {
+			parts := strings.Split(f[1], ".")
+			if len(parts) >= 2 {
+				major, _ := strconv.Atoi(parts[0])
+				minor, _ := strconv.Atoi(parts[1])
+				return major > 1 || minor >= 21
+			}
+		}
+	}
+	return false
+}
+
 func (r *rw) constraint() string {
+	if !needGo121 {
+		for _, cg := range r.file.Comments {
+			if cg.Pos() > r.file.Package {
+				break
+			}
+			for _, c := range cg.List {
+				if strings.HasPrefix(c.Text, "//go:build ") {
+					return strings.TrimSpace(strings.TrimPrefix(c.Text, "//go:build "))
+				}
+			}
+		}
+		return ""
+	}
 	for _, cg := range r.file.Comments {
 		if cg.Pos() > r.file.Package {
 			break
